@@ -187,6 +187,8 @@ def run(ctx):
     explicit utf8 codec.  The two agree for every locale exactly when (a) the writer names the same codec as the reader, or
     (b) the writer emits ASCII only (json.dump's default ensure_ascii=True), which every ASCII-compatible locale codec and
     utf8 decode identically."""
+    ctx.rule('R01.6', 'the notebook diff is a function of the two notebooks\' CONTENT: nothing reachable from diff_notebooks writes module-level state '
+             '(memo tables keyed by object identity or cell ids, caches surviving the call) -- same analysis as C12 R12.1/R12.3', floor=8)
     ctx.rule('R01.5', 'file interface: the codec/escaping nbdiff --out writes the diff with is one nbpatch decodes identically under every locale', floor=1)
     _run_base(ctx)
     repo = ctx.repo
@@ -223,3 +225,18 @@ def run(ctx):
              'the bytes written decode to the same text in the reader under every locale' if ok else
              'the diff file is written with the locale codec (%s) and non-ASCII text unescaped, but read back as %s: under a non-UTF-8 locale '
              'nbdiff --out fails or nbpatch rebuilds different text' % (wenc, renc), dump)
+
+    # ---------------------------------------------------------------- R01.6 (re-uses the effect analysis of C12)
+    from . import c12
+    from ..report import Ctx as _Ctx
+    sub = _Ctx.__new__(_Ctx)
+    sub.__dict__.update(ctx.__dict__)
+    sub.instances, sub.findings, sub.notes, sub.floors, sub.rules, sub.extra = [], [], [], {}, {}, {}
+    c12.run(sub)
+    for i in sub.instances:
+        if i['rule'] in ('R12.1', 'R12.3'):
+            j = dict(i)
+            j['rule'] = 'R01.6'
+            ctx.instances.append(j)
+            if j['verdict'] != 'ok':
+                ctx.findings.append(j)
